@@ -49,6 +49,13 @@ class Closure:
     def __repr__(self): return f'Closure({self.fn})'
 
 
+class FnItem:
+    """a function item used as a value (e.g. `map_err(Into::into)`)"""
+    __slots__ = ('callee',)
+    def __init__(self, callee): self.callee = callee
+    def __repr__(self): return f'FnItem({self.callee})'
+
+
 class PVec:
     """Vec / slice / array model: Python list of Cells (concrete shape)"""
     def __init__(self, items=None): self.items = items if items is not None else []
@@ -171,6 +178,7 @@ class Executor:
         self.cur_fn = []
         self._clos = None
         self.const_models = []
+        self.summarize = set()     # MIR names of pure bool-returning functions returned as one merged term
         self.variant_owner = {}
         for en, vs in self.L.enums.items():
             for v in vs:
@@ -491,6 +499,7 @@ class Executor:
             if isinstance(c, tuple): raise Unsupported('operand is a downcast: ' + s)
             return c.v
         if s.startswith('const '): return self.const(s[6:], f)
+        if re.match(r'^[<\w]', s) and '::' in s: return FnItem(s)
         raise Unsupported('operand ' + s)
 
     BINOPS = ('Eq', 'Ne', 'Lt', 'Le', 'Gt', 'Ge', 'Add', 'Sub', 'Mul', 'Div', 'Rem', 'AddWithOverflow', 'SubWithOverflow',
@@ -861,6 +870,7 @@ class Executor:
 
     def do_call(self, callee, args, f=None):
         c = re.sub(r'\{closure@[^}]*\}', '{closure}', callee)
+        c = re.sub(r'\b(?:std|core|alloc)::(?:[a-z_0-9]+::)*(?=[A-Z])', '', c)   # std module paths before type/trait names
         if callee.startswith('move ') or callee.startswith('copy '):
             raise Unsupported('indirect call ' + callee)
         user = self.resolver.resolve_fn(self, callee) if self.resolver else None
@@ -873,11 +883,46 @@ class Executor:
                 self.models_used.add(pat)
                 return fn(self, args, callee)
         if user is not None:
+            m = re.match(r'^<(&+)', callee)
+            if m:
+                # blanket impls for references (`impl PartialEq<&B> for &A` etc.) forward to the impl for the referent
+                for _ in range(len(m.group(1))):
+                    args = [a.cell.v if isinstance(a, Ref) and isinstance(a.cell.v, Ref) else a for a in args]
+            if user in self.summarize:
+                return self.call_summarized(user, args)
             return self.call_fn(user, args)
         raise Unsupported(f'unmodelled call {callee} (in {self.cur_fn[-1] if self.cur_fn else "?"})')
 
+    def call_summarized(self, name, args):
+        """state merging for a pure function returning bool: explore it in a nested run and return
+        the disjunction of (path condition and result) as one term, so the caller forks at most once"""
+        saved = (self.prefix, self.trace, self.pc, self.pending, list(self.cur_fn))
+        outer = list(self.pc)
+        results, work = [], [[]]
+        try:
+            while work:
+                prefix = work.pop()
+                self.prefix, self.trace, self.pc, self.pending = prefix, [], list(outer), []
+                self.cur_fn = list(saved[4])
+                try:
+                    r = self.call_fn(name, args)
+                except Infeasible:
+                    r = None
+                except Panic as p:
+                    raise Unsupported(f'panic inside summarized function {name}: {p.msg}')
+                work += self.pending
+                if r is not None:
+                    if not (isinstance(r, bool) or z3.is_bool(r)): raise Unsupported(f'summarized function {name} returned {r!r}')
+                    results.append((self.pc[len(outer):], r))
+        finally:
+            self.prefix, self.trace, self.pc, self.pending, self.cur_fn = saved
+        terms = [zand(*(list(pc) + [r])) for pc, r in results]
+        t = zor(*terms)
+        return z3.simplify(t) if is_sym(t) else t
+
     def call_closure(self, clo, args):
         clo = dv(clo)
+        if isinstance(clo, FnItem): return self.do_call(clo.callee, list(args))
         if not isinstance(clo, Closure): raise Unsupported(f'call of non-closure {clo!r}')
         f = self.fns[clo.fn]
         env = Adt('closure', 0, {None: [Cell(u) for u in clo.upvars]})
